@@ -1,3 +1,237 @@
+import Cello.Registry
+import CelloGen.Reg
 import Driver.Common
-/- driver for engine `reg` — stub, replaced when the engine is built -/
-def main (_args : List String) : IO Unit := IO.println "O not-implemented"
+import Std.Data.HashMap
+/- driver for engine `reg` (C17): interprets the op files of harness/h_reg.c on the registry model and prints the same
+   `O` lines (result, addresses deallocated, counters, bounds and the whole slot array after every op).
+   `R bad …` lines report that the model disagrees with its own ledger or that the executable invariant fails. -/
+open Cello.Registry
+
+def cfg : Cfg := gcCfg
+
+def arenaBase : Nat := 0x200000000000
+def addr0 : Nat := arenaBase + 32
+def addrOfU (u : Nat) : Nat := addr0 + 8 * u
+
+def fnv (s : String) : UInt64 :=
+  s.toUTF8.foldl (fun h b => (h ^^^ b.toUInt64) * 1099511628211) 14695981039346656037
+
+def joinOrDigest (xs : List String) : String :=
+  let s := ",".intercalate xs
+  if xs.length > 40 then s!"#{xs.length}:{(fnv s).toNat}" else s
+
+def addrStr (p : Nat) : String :=
+  if p == uintptrMax then "max" else if p == 0 then "0"
+  else if p ≥ addr0 && (p - addr0) % 8 == 0 then s!"u{(p - addr0) / 8}" else s!"?{p}"
+
+structure St where
+  reg : Reg := Reg.init
+  idU : Array (Option Nat) := #[]          -- id -> u
+  uId : Std.HashMap Nat Nat := {}          -- u -> id
+  bucket : Std.HashMap Nat Nat := {}       -- u / 4 -> u (an object takes 4 address units: one object per bucket)
+  st : Array Nat := #[]                    -- 0 never, 1 managed, 2 unmanaged (raw / allocated while stopped), 3 dead
+  rootOf : Array Bool := #[]
+  kills : Array (List Nat) := #[]
+  every : Nat := 1
+  since : Nat := 0
+  nDump : Nat := 0
+  maxN : Nat := 0
+  nShift : Nat := 0
+
+def St.idOfAddr (s : St) (p : Nat) : String :=
+  if p ≥ addr0 && (p - addr0) % 8 == 0 then
+    match s.uId[(p - addr0) / 8]? with
+    | some id => toString id
+    | none => s!"?{p}"
+  else s!"?{p}"
+
+def St.K (s : St) (p : Nat) : List Nat :=
+  if p ≥ addr0 then
+    match s.uId[(p - addr0) / 8]? with
+    | some id => (s.kills.getD id []).filterMap (fun k => (s.idU.getD k none).map addrOfU)
+    | none => []
+  else []
+
+def St.addrOfId (s : St) (id : Nat) : Option Nat := (s.idU.getD id none).map addrOfU
+
+def entriesStr (s : St) : String :=
+  let r := s.reg
+  let es := (List.range r.n).filterMap (fun i =>
+    if hi : i < r.n then
+      match r.slots[i] with
+      | none => none
+      | some e => some s!"{i}:{e.home}:{s.idOfAddr e.key}:{if e.val.root then 1 else 0}:{if e.val.marked then 1 else 0}"
+    else none)
+  joinOrDigest es
+
+def stateStr (s : St) (dump : Bool) : String :=
+  let r := s.reg
+  s!"n={r.n} ni={r.nitems} mi={r.mitems} lo={addrStr r.minptr} hi={addrStr r.maxptr} run={if r.running then 1 else 0} e={if dump then entriesStr s else "-"}"
+
+def finStr (s : St) (t : List Nat) : String := joinOrDigest (t.map s.idOfAddr)
+
+/-- the model against its own ledger: mem for every id ever seen, root flags, count, executable invariant -/
+def selfCheck (s : St) : List String := Id.run do
+  let mut bad : List String := []
+  let r := s.reg
+  if !invB cfg r then bad := "invB" :: bad
+  let mut managed := 0
+  for id in [0:s.st.size] do
+    let stt := s.st.getD id 0
+    if stt == 0 then continue
+    if stt == 1 then managed := managed + 1
+    match s.addrOfId id with
+    | none => bad := s!"no-addr {id}" :: bad
+    | some p =>
+      match memPtr cfg r p with
+      | none => bad := s!"mem-ub {id}" :: bad
+      | some b => if b != (stt == 1) then bad := s!"mem {id} model={b} ledger={stt}" :: bad
+  if managed != r.nitems then bad := s!"nitems {r.nitems} ledger {managed}" :: bad
+  for i in [0:r.n] do
+    if hi : i < r.n then
+      match r.slots[i] with
+      | none => pure ()
+      | some e =>
+        if e.val.marked then bad := s!"mark left at {i}" :: bad
+        match s.uId[(e.key - addr0) / 8]? with
+        | some id => if s.rootOf.getD id false != e.val.root then bad := s!"root flag of {id}" :: bad
+        | none => bad := s!"unknown entry at {i}" :: bad
+  return bad
+
+def growTo {α : Type} (a : Array α) (n : Nat) (d : α) : Array α :=
+  if a.size ≥ n then a else a ++ Array.replicate (n - a.size) d
+
+/-- after an op: apply the deallocation trace to the ledger, print the line -/
+def finish (s : St) (name res : String) (t : List Nat) : IO St := do
+  let mut s := s
+  for p in t do
+    match s.uId[(p - addr0) / 8]? with
+    | some id => s := { s with st := s.st.setIfInBounds id 3 }
+    | none => pure ()
+  let due := s.since + 1 ≥ s.every
+  s := { s with since := if due then 0 else s.since + 1, nDump := s.nDump + (if due then 1 else 0),
+                maxN := max s.maxN s.reg.n }
+  IO.println s!"O {name} {res} fin={finStr s t} | {stateStr s due}"
+  if due then
+    for b in selfCheck s do IO.println s!"R bad {name}: {b}"
+  return s
+
+def idealLine (lo hi : Nat) : String := Id.run do
+  let mut out : List String := []
+  let mut last : Option (Option Nat) := none
+  for n in [lo:hi] do
+    let v := idealSize cfg n
+    if last != some v then
+      out := s!"{n}:{match v with | some v => toString v | none => "ub"}" :: out
+      last := some v
+  return ",".intercalate out.reverse
+
+def registerId (s : St) (id u : Nat) : Option St :=
+  if id ≥ 200000 || u > 2^43 then none else
+  match s.idU.getD id none with
+  | some u' => if u' == u then some s else none
+  | none =>
+    -- the 32 bytes of an object must not overlap another object's
+    if [u / 4 - 1, u / 4, u / 4 + 1].any (fun b => match s.bucket[b]? with
+        | some u' => (if u' ≥ u then u' - u else u - u') < 4 | none => false) then none
+    else
+      let k := id + 1
+      some { s with idU := (growTo s.idU k none).setIfInBounds id (some u), uId := s.uId.insert u id, bucket := s.bucket.insert (u / 4) u,
+                    st := growTo s.st k 0, rootOf := growTo s.rootOf k false, kills := growTo s.kills k [] }
+
+def main (args : List String) : IO Unit := do
+  let lines ← Driver.inputLines args
+  let mut s : St := {}
+  let mut nops := 0
+  for l in lines do
+    if Driver.isSkippable l then continue
+    nops := nops + 1
+    let ws := Driver.words l
+    let nums := (ws.drop 1).map String.toNat?
+    if nums.any Option.isNone then IO.println "O bad-op"; continue
+    let a := (nums.filterMap id).toArray
+    match ws.head?, a.size with
+    | some "dumpevery", 1 =>
+      if a[0]! == 0 then IO.println "O bad-op" else
+      s := { s with every := a[0]!, since := 0 }
+      IO.println s!"O dumpevery {a[0]!}"
+    | some "ideal", 2 => IO.println s!"O ideal {idealLine a[0]! a[1]!}"
+    | some op, _ =>
+      if (op == "new" || op == "newroot" || op == "newraw" || op == "tnew") && a.size == 2 then
+        let id := a[0]!; let u := a[1]!
+        match registerId s id u with
+        | none => IO.println "O bad-op"
+        | some s1 =>
+          let stt := s1.st.getD id 0
+          if stt == 1 || stt == 2 then IO.println "O bad-op" else    -- still allocated
+          s := s1
+          let p := addrOfU u
+          if op == "newraw" then
+            s := { s with st := s.st.setIfInBounds id 2, rootOf := s.rootOf.setIfInBounds id false }
+            s ← finish s op "ok" []
+          else
+            let root := op == "newroot"
+            -- the harness keeps the threshold out of reach for exact ops (white-box: mitems >= nitems + 1)
+            let r0 := if s.reg.running && s.reg.mitems < s.reg.nitems + 1 then { s.reg with mitems := s.reg.nitems + 1 } else s.reg
+            match gcSet cfg s.K r0 p root [] with
+            | none => s ← finish s op "ub" []
+            | some (r1, t) =>
+              s := { s with reg := r1, st := s.st.setIfInBounds id (if r0.running then 1 else 2),
+                            rootOf := s.rootOf.setIfInBounds id (r0.running && root) }
+              s ← finish s op "ok" t
+      else if (op == "del" || op == "delroot") && a.size == 1 then
+        match s.addrOfId a[0]! with
+        | none => IO.println "O bad-op"
+        | some p =>
+          match gcRem cfg s.K s.reg p with
+          | none => s ← finish s op "ub" []
+          | some (r1, t) => s := { s with reg := r1 }; s ← finish s op "ok" t
+      else if op == "delraw" && a.size == 1 then
+        let id := a[0]!
+        if s.st.getD id 0 != 2 then IO.println "O bad-op" else
+        -- del_raw: destruct + dealloc without the collector; the destructor's deletions go through GC_Rem
+        match exec cfg s.K (nestFuel s.reg + 1) s.reg (.fin (addrOfU ((s.idU.getD id none).getD 0))) with
+        | none => s ← finish s op "ub" []
+        | some (r1, t) => s := { s with reg := r1 }; s ← finish s op "ok" t
+      else if op == "mem" && a.size == 1 then
+        match s.addrOfId a[0]! with
+        | none => IO.println "O bad-op"
+        | some p =>
+          match memPtr cfg s.reg p with
+          | none => s ← finish s op "ub" []
+          | some b => s ← finish s op (if b then "1" else "0") []
+      else if op == "sweep" || op == "collect" then
+        let ps := a.toList.filterMap s.addrOfId
+        if ps.length != a.size || (op == "collect" && a.size > 40) then IO.println "O bad-op" else
+        let r0 := if op == "collect" then markRoots s.reg else s.reg
+        match markAll cfg r0 ps with
+        | none => s ← finish s op "ub" []
+        | some r1 =>
+          match gcSweep cfg s.K r1 with
+          | none => s ← finish s op "ub" []
+          | some (r2, t) => s := { s with reg := r2 }; s ← finish s op "ok" t
+      else if op == "sweepmod" && a.size == 2 && a[0]! > 0 then
+        -- mark every managed id with id % m != r
+        let ps := (List.range s.st.size).filterMap (fun id =>
+          if s.st.getD id 0 == 1 && id % a[0]! != a[1]! then s.addrOfId id else none)
+        match markAll cfg s.reg ps with
+        | none => s ← finish s op "ub" []
+        | some r1 =>
+          match gcSweep cfg s.K r1 with
+          | none => s ← finish s op "ub" []
+          | some (r2, t) => s := { s with reg := r2 }; s ← finish s op "ok" t
+      else if op == "stop" && a.size == 0 then
+        s := { s with reg := gcStop s.reg }; s ← finish s op "ok" []
+      else if op == "start" && a.size == 0 then
+        s := { s with reg := gcStart s.reg }; s ← finish s op "ok" []
+      else if op == "kill" && a.size == 2 then
+        if (s.idU.getD a[0]! none).isNone || (s.idU.getD a[1]! none).isNone then IO.println "O bad-op" else
+        s := { s with kills := s.kills.setIfInBounds a[0]! (s.kills.getD a[0]! [] ++ [a[1]!]) }
+        IO.println s!"O kill {a[0]!} {a[1]!}"
+      else if op == "unkill" && a.size == 1 then
+        if (s.idU.getD a[0]! none).isNone then IO.println "O bad-op" else
+        s := { s with kills := s.kills.setIfInBounds a[0]! [] }
+        IO.println s!"O unkill {a[0]!}"
+      else IO.println "O bad-op"
+    | none, _ => IO.println "O bad-op"
+  IO.println s!"S ops={nops} dumps={s.nDump} maxslots={s.maxN}"
